@@ -34,6 +34,7 @@ type dir struct {
 	log   *slog.Logger
 	conf  config.Config
 	stop  chan struct{}
+	done  chan struct{} // closed when Close has finished, nothing may touch the directory after that
 }
 
 type dirRepo struct {
@@ -70,8 +71,16 @@ func NewDir(conf config.Config, opts ...Opts) Store {
 	for _, opt := range opts {
 		opt(&sc)
 	}
+	done := make(chan struct{})
 	cacheOpts := cache.Opts[string, *dirRepo]{
 		PruneFn: func(_ string, dr *dirRepo) error {
+			// repos that Close could not remove from the cache are dropped without running a GC when their timer fires later,
+			// another store may be using the directory by then
+			select {
+			case <-done:
+				return nil
+			default:
+			}
 			if !dr.uploads.IsEmpty() {
 				return fmt.Errorf("uploads in progress")
 			}
@@ -94,6 +103,7 @@ func NewDir(conf config.Config, opts ...Opts) Store {
 		log:   sc.log,
 		conf:  conf,
 		stop:  make(chan struct{}),
+		done:  done,
 	}
 	if d.log == nil {
 		d.log = slog.New(sloghandle.Discard)
@@ -209,6 +219,7 @@ func (d *dir) Close() error {
 	// wait for background jobs to finish
 	d.mu.Unlock()
 	d.wg.Wait()
+	close(d.done)
 	if len(errs) > 0 {
 		return errors.Join(errs...)
 	}
